@@ -22,6 +22,8 @@ import (
 	_ "go.nanomsg.org/mangos/v3/transport/ipc"
 	_ "go.nanomsg.org/mangos/v3/transport/tcp"
 	_ "go.nanomsg.org/mangos/v3/transport/tlstcp"
+	_ "go.nanomsg.org/mangos/v3/transport/ws"
+	_ "go.nanomsg.org/mangos/v3/transport/wss"
 	ssync "go.nanomsg.org/mangos/v3/verifsim/ssync"
 )
 
@@ -74,7 +76,7 @@ func (w *W) EpOpts(addr string, listen bool, extra map[string]interface{}) map[s
 	for k, v := range extra {
 		o[k] = v
 	}
-	if strings.HasPrefix(addr, "tls+tcp://") && !w.Real {
+	if (strings.HasPrefix(addr, "tls+tcp://") || strings.HasPrefix(addr, "wss://")) && !w.Real {
 		srv, cli := simTLS()
 		if listen {
 			o[mangos.OptionTLSConfig] = srv
@@ -114,7 +116,7 @@ func init() {
 // smokeRealStream: REQ/REP round trips over the real tcp / ipc / tls+tcp
 // endpoint code on the simulated network.
 func smokeRealStream(w *W) {
-	tran := []string{"tcp", "ipc", "tls+tcp"}[w.Choose("shape", 3)]
+	tran := []string{"tcp", "ipc", "tls+tcp", "ws", "wss"}[w.Choose("shape", 5)]
 	n := 1 + w.Choose("shape", 4)
 	w.SetShape("tran", tran)
 	w.UseNet(NetCfg{Segment: w.Choose("shape", 2) == 0, BufCap: []int{0, 64, 300}[w.Choose("shape", 3)], Latency: []time.Duration{0, 200 * time.Microsecond}[w.Choose("shape", 2)]})
@@ -198,7 +200,7 @@ func (w *W) simFallback(tran string) string {
 		return tran
 	}
 	switch tran {
-	case "tcp", "tls+tcp":
+	case "tcp", "tls+tcp", "ws", "wss":
 		return "sim"
 	case "ipc":
 		return "simipc"
